@@ -10,11 +10,24 @@ use std::cmp::Ordering;
 pub const CAP: usize = 62;
 
 fn limb(s: u64) -> u64 {
-    match s % 8 {
+    match s % 11 {
         0 => 0,
         1 => u64::MAX,
         2 => 1,
         3 => 1 << 63,
+        // byte-structured values: byte-palindromes, one repeated byte, one odd byte out
+        4 => {
+            let v = gen::mix(s) & 0xffff_ffff;
+            (v << 32 | v).swap_bytes() | (v << 32 | v)
+        }
+        5 => {
+            let v = gen::mix(s);
+            (v & 0xff) * 0x0101_0101_0101_0101
+        }
+        6 => {
+            let v = gen::mix(s);
+            ((v & 0xff) * 0x0101_0101_0101_0101) ^ (((v >> 8) & 0xff) << (8 * ((v >> 16) % 8)))
+        }
         _ => gen::mix(s),
     }
 }
